@@ -1,0 +1,7 @@
+//go:build verif
+
+// Contracts for the deductive verification in /verif (comment-only; compiled code is unaffected).
+package unlocker
+
+//@ iface Service.UnlockAccount(self, ctx, wallet, account)
+//@ iface Service.UnlockWallet(self, ctx, wallet)
